@@ -1685,6 +1685,12 @@ def finish_cfg(res, rep):
     for n, (outcome, real_pend, rv, rp) in enumerate(zip(outcomes, real_pends, rvs, reps)):
         tag = 'commit %d: ' % (n + 1)
         model_pend = sorted(rp['pending'])
+        if outcome != 'ok':
+            # a commit that raised: the number of introspectables of an action is only comparable once the action has
+            # run (add_translation_dirs fills its list inside the callable; an aborted commit leaves it empty while the
+            # declaration taken from the shadow run has them) — compare ids and include paths only
+            real_pend = [p[:2] for p in real_pend]
+            model_pend = sorted(p[:2] for p in model_pend)
         if sorted(real_pend) != model_pend:
             res['mismatch'] = tag + 'pending actions differ (id, include path, number of introspectables): impl %s model %s' % (
                 [p for p in sorted(real_pend) if p not in model_pend][:4], [p for p in model_pend if p not in real_pend][:4])
